@@ -99,7 +99,14 @@ def run_c06(chk):
                 yield item
         lex._get_matrices = spy_gm
         try:
-            lex.cluster(method=method, cluster_method=link, threshold=t, ref=ref, override=True)
+            amode = 'overlap'
+            if method in ('sca', 'lexstat') and again is None and rng.random() < 0.2:
+                # the alignment mode of the distances is the caller's choice; in global mode unrelated words are further apart than 1,
+                # and a threshold of 1 or more is a threshold like any other
+                amode = 'global'
+                t = rng.choice([1.0, 1.25, 1, t])
+                chk.hist['LexStat.cluster(mode=global), thresholds of 1 and more'] += 1
+            lex.cluster(method=method, cluster_method=link, threshold=t, ref=ref, override=True, **({'mode': amode} if amode != 'overlap' else {}))
         except Exception as ex:  # noqa
             fails.append((d, method, link, t, 'cluster raised %s: %s' % (type(ex).__name__, str(ex)[:100])))
             continue
@@ -121,7 +128,7 @@ def run_c06(chk):
             # the matrix clustered for a concept holds, for EVERY pair of its words, the distance of the method (identical forms in two
             # languages included: under the lexstat scorer their distance is not 0 in general)
             try:
-                fn = lex._distance_method(method, scale=0.5, factor=0.3, restricted_chars='_T', mode='overlap', gop=-2,
+                fn = lex._distance_method(method, scale=0.5, factor=0.3, restricted_chars='_T', mode=amode, gop=-2,
                                           restriction='', external_scorer=False)
             except Exception:  # noqa
                 fn = None
@@ -146,7 +153,7 @@ def run_c06(chk):
                             sb_ = ['%s.%s' % (x, lex._transform[y]) for x, y in zip(lex[ib, 'classes'], lex[ib, 'prostrings'])]
                             try:
                                 own = _calign.align_pair(sa_, sb_, lex[ia, 'weights'], lex[ib, 'weights'], lex[ia, 'prostrings'], lex[ib, 'prostrings'],
-                                                         -2, 0.5, 0.3, lex.rscorer, 'overlap', '_T', 1)[2]
+                                                         -2, 0.5, 0.3, lex.rscorer, amode, '_T', 1)[2]
                             except ZeroDivisionError:
                                 own = dij
                             if own != dij:
@@ -162,7 +169,7 @@ def run_c06(chk):
                             e = ('concept %r: the matrix that is clustered has %r for words %d %r and %d %r, the %s distance of the pair is %r'
                                  % (c, m[i][j], idx[i], lex[idx[i], 'tokens'], idx[j], lex[idx[j], 'tokens'], method, dij))
         if not e:
-            for c, idx, m in mats:
+            for c, idx, m in (used or mats):
                 part = partition_of(ids, idx)
                 clusters = {i: [idx.index(k) for k in block] for i, block in enumerate(part)}
                 oe = cl.oracle_c05(link, m, t, clusters, tol=1e-12)
@@ -198,7 +205,7 @@ def run_c06(chk):
         # --- correspondence: ids recomputed by the Lean model from (indices, matrices) ---
         def model_ids_with(labeller):
             parts = []
-            for c, idx, m in mats:
+            for c, idx, m in (used or mats):
                 labels = labeller(m)
                 parts.append('%s:%s' % (','.join(map(str, idx)), ','.join(str(labels[i]) for i in range(len(idx)))))
             out = drv.ask('glue|0|' + ' '.join(parts))
